@@ -843,8 +843,9 @@ for k in range(nb):
         tasks.append(("positive", chunk, run_positive_batch, (chunk, "positive_batch%d" % k)))
 if sq:
     tasks.append(("square_root", sq, run_positive_batch, (sq, "sqrt_batch")))
-if prb:
-    tasks.append(("probe", prb, run_probe_batch, (prb, "probe_batch")))
+for k in range(0, len(prb), 300):  # at most 300 probes per translation unit
+    chunk = prb[k:k + 300]
+    tasks.append(("probe", chunk, run_probe_batch, (chunk, "probe_batch%d" % (k // 300))))
 for c in neg:
     tasks.append(("negative", [c], lambda a: [run_negative(a)], c))
 for p in absv:
